@@ -409,6 +409,15 @@ def child_cases(spec, tier, rng):
                 g, _ = good_bad(spec_rule(spec, ver, 1, k))
                 out.append(("C", ver, ptype, ((k, g),)))
                 out.append(("C", ver, ptype, tuple(goods[:1]) + ((k, g),)))
+            # every value type the version defines but this child type does not carry, alone, in both tiers (a
+            # table entry that leaked in from another version shows up here and nowhere else)
+            for k in others:
+                if k not in picks:
+                    out.append(("C", ver, ptype, ((k, good_bad(spec_rule(spec, ver, 1, k))[0]),)))
+            # … and the value types only LATER versions define (what a leak from a later table would add)
+            later = sorted({int(x) for v2 in VERSIONS for x in spec["versions"][v2]["commands"]["1"]["sub_types"]} - set(setreq))
+            for k in later:
+                out.append(("C", ver, ptype, ((k, "1"),)))
             # boundary corpus through the child schema for the non-trivial value types
             for k in allowed:
                 rule = spec_rule(spec, ver, 1, k)
@@ -465,7 +474,30 @@ def _work(chunk):
     return [real_outcome(c) for c in chunk]
 
 
-def run_real(cases):
+def preload_all_versions():
+    """a process that has used every protocol version (a 2.2 gateway with a 1.5 node has): validation for one
+    version must not depend on which other versions' tables were built before"""
+    from mysensors.const import get_const
+    for ver in VERSIONS:
+        get_const(ver)
+
+
+def _work_preloaded(chunk):
+    import logging
+    logging.disable(logging.CRITICAL)
+    preload_all_versions()
+    return [real_outcome(c) for c in chunk]
+
+
+def run_real(cases, preloaded=False):
+    if preloaded:
+        # always in fresh worker processes, so that the parent's imports do not decide the outcome
+        ctx = multiprocessing.get_context("fork")
+        size = max(200, len(cases) // 32 + 1)
+        chunks = [cases[i:i + size] for i in range(0, len(cases), size)]
+        with ctx.Pool(max(1, min(16, (os.cpu_count() or 2)))) as pool:
+            res = pool.map(_work_preloaded, chunks)
+        return [o for ch in res for o in ch]
     procs = max(1, min(16, (os.cpu_count() or 2)))
     size = max(200, len(cases) // (procs * 8) + 1)
     chunks = [cases[i:i + size] for i in range(0, len(cases), size)]
@@ -572,6 +604,18 @@ def run(tier, seed, driver):
         f = judge(spec, c, r)
         if f:
             res.oracle_failures.append(f)
+    # the same corpus and child cases in processes that have already built the tables of all five versions
+    again = corp + child
+    real2 = run_real(again, preloaded=True)
+    res.evaluations += len(again)
+    res.count("preloaded-all-versions", len(again))
+    for c, r in zip(again, real2):
+        f = judge(spec, c, r)
+        if f:
+            f["key"]["preloaded"] = True
+            f["what"] = "after the tables of all versions were built in the process: " + f["what"]
+            f["replay"]["preload_all_versions"] = True
+            res.oracle_failures.append(f)
     # observe_at 2: a rejected line has no effect on a gateway of that version
     n_eff = 600 if tier == "quick" else 12000
     idx = rng.sample(range(len(hdr)), min(n_eff, len(hdr)))
@@ -596,6 +640,8 @@ def replay(payload):
         return 0
     case = tuple(tuple(tuple(y) for y in x) if isinstance(x, list) else x for x in case)
     spec = load_spec()
+    if r.get("preload_all_versions"):
+        preload_all_versions()
     real = real_outcome(case)
     print("impl:", real, " reference:", oracle_verdict(spec, case))
     try:
